@@ -217,6 +217,13 @@ fn run_case<B: Backend>(c: &Case, acc: &mut Acc) -> R {
                     let mut r = c.nonce.bytes(512);
                     r[0] = (r[0] & 0x3f) | 0x40;
                     let rp = model::rsa_pub_from_spki(&pk_raw).map_err(|e| Fail::new("HARNESS/rsa-pub", e))?;
+                    // every other case: a ciphertext with 1-2 leading zero bytes (constructed)
+                    if c.salt_seed % 2 == 0 {
+                        if let Some(ar) = model::rsa_aimed_r(&sk_raw, &rp, c.salt_seed as u64, 1 + (c.salt_seed as usize / 2) % 2).map_err(|e| Fail::new("HARNESS/rsa-aim", e))? {
+                            r = ar;
+                            acc.class("pke:v1-model-blob-with-leading-zero-ciphertext");
+                        }
+                    }
                     Some(model::pke_seal_rsa(&rp, &r, &pdk).map_err(|e| Fail::new("HARNESS/model-pke2", e))?)
                 }
             }
@@ -273,10 +280,17 @@ fn scripted_pke<B: Backend>(c: &ScriptCase, acc: &mut Acc) -> R {
             (d, s)
         }
         Ver::V1 => {
-            let d = c.draw.bytes(512);
+            let mut d = c.draw.bytes(512);
+            let rp = model::rsa_pub_from_spki(&pk_raw).map_err(|e| Fail::new("HARNESS/rsa-pub", e))?;
+            // wrap-kind draws are replaced by a constructed draw whose ciphertext has leading zero bytes
+            if c.draw.is_wrap() {
+                if let Some(ar) = model::rsa_aimed_r(&sk_raw, &rp, hash_of(&c.wrapped), 1 + (c.wrapped.bytes[0] % 2) as usize).map_err(|e| Fail::new("HARNESS/rsa-aim", e))? {
+                    d = ar;
+                    acc.class("pke-scripted:v1-leading-zero-ciphertext");
+                }
+            }
             let mut r = d.clone();
             r[0] = (r[0] & 0x7f) | 0x40; // the two top bits are forced to 01 by the specification
-            let rp = model::rsa_pub_from_spki(&pk_raw).map_err(|e| Fail::new("HARNESS/rsa-pub", e))?;
             (d, model::pke_seal_rsa(&rp, &r, &pdk).map_err(|e| Fail::new("HARNESS/model", e))?)
         }
     };
